@@ -238,26 +238,6 @@ pub enum PlayerNum {
     Two,
 }
 
-// PlayerNum::ind / ind_mut use slice patterns in a `match` (rejected by this Verus); they are kept
-// external with the two-case spec, and that spec is discharged against the real bodies by the
-// loop-free Kani harness `playernum_ind` (so it is cited, not assumed).
-impl PlayerNum {
-    #[verifier::external_body]
-    pub fn ind<'a, T>(&self, arr: &'a [T; 2]) -> (r: &'a T)
-        ensures *r == (match *self { PlayerNum::One => arr[0], PlayerNum::Two => arr[1] })
-    { unimplemented!() }
-
-    #[verifier::external_body]
-    pub fn ind_mut<'a, T>(&self, arr: &'a mut [T; 2]) -> (r: &'a mut T)
-        ensures
-            *r == (match *self { PlayerNum::One => old(arr)[0], PlayerNum::Two => old(arr)[1] }),
-            match *self {
-                PlayerNum::One => final(arr)[0] == *final(r) && final(arr)[1] == old(arr)[1],
-                PlayerNum::Two => final(arr)[1] == *final(r) && final(arr)[0] == old(arr)[0],
-            },
-    { unimplemented!() }
-}
-
 // ---- extracted from src/lib.rs: enum Node ----
 pub enum Node {
     /// A terminal node, the game is over the payoff to player one
@@ -281,13 +261,19 @@ pub struct Player {
     pub actions: Box<[Node]>,
 }
 
+// ---- extracted from src/solve/vanilla.rs: struct MutexRegretInfoset ----
+pub struct MutexRegretInfoset {
+    pub cum_regret: Box<[AtomicF64]>,
+    pub cum_strat: Mutex<Box<[f64]>>,
+    pub strat: Box<[f64]>,
+}
+
 pub open spec fn pnext_ok(num: PlayerNum, p_player: [f64; 2], prob: f64, p_next: [f64; 2]) -> bool {
     match num {
         PlayerNum::One => rv(p_next[0]) == rv(p_player[0]) * rv(prob) && p_next[1] == p_player[1],
         PlayerNum::Two => p_next[0] == p_player[0] && rv(p_next[1]) == rv(p_player[1]) * rv(prob),
     }
 }
-
 // a selection of action positions, strictly increasing (no action twice, order kept)
 pub open spec fn sel_ok(idx: Seq<int>, n: int) -> bool {
     (forall|j: int| 0 <= j < idx.len() ==> 0 <= #[trigger] idx[j] < n)
@@ -301,83 +287,280 @@ pub open spec fn added_ok<'a>(w0: Seq<(&'a Node, f64, [f64; 2])>, w1: Seq<(&'a N
         && w1[w0.len() + j].1 == p_chance && pnext_ok(player.num, p_player, st[idx[j]], w1[w0.len() + j].2)
 }
 
+
+use std::mem;
+pub type Item<'a> = (&'a Node, f64, [f64; 2]);
 #[verifier::external_body] pub struct AtomicF64 { }
 #[verifier::external_body]
 #[verifier::reject_recursive_types(T)]
 pub struct Mutex<T> { t: core::marker::PhantomData<T> }
+#[verifier::external_body] pub struct ChanceTables { }
+// std::num::NonZeroUsize as far as the loop uses it
+pub struct NonZeroUsize { pub v: usize }
+impl NonZeroUsize { pub fn get(self) -> (r: usize) ensures r == self.v { self.v } }
+impl Clone for NonZeroUsize { fn clone(&self) -> (r: Self) ensures r == *self { NonZeroUsize { v: self.v } } }
+impl Copy for NonZeroUsize { }
 
-// ---- extracted from src/solve/vanilla.rs: struct MutexRegretInfoset ----
-pub struct MutexRegretInfoset {
-    pub cum_regret: Box<[AtomicF64]>,
-    pub cum_strat: Mutex<Box<[f64]>>,
-    pub strat: Box<[f64]>,
+// ---- what the frontier is measured with: ANY additive functional of the traversal -----------------
+// vf(n, pc, p1, p2): an arbitrary integer-valued functional of "the traversal of the subtree below n
+// entered with chance reach pc and player reaches p1, p2" (e.g. how often a given infoset update or a
+// given leaf is performed).  It is uninterpreted; all that is assumed (ax_additive) is that it
+// decomposes over the children the SEQUENTIAL traversal visits: at a chance node the outcomes the
+// infoset's next_nodes yields in this pass (all of them, or the one sampled), each with the chance
+// reach multiplied by its probability; at a decision node every action, with the acting player's
+// reach multiplied by the current strategy's probability.  Terminals are unconstrained.
+pub uninterp spec fn vf(n: Node, pc: real, p1: real, p2: real) -> int;
+pub uninterp spec fn outcomes_of(ch: Chance) -> Seq<(f64, Node)>;
+pub uninterp spec fn cur_strat(num: PlayerNum, infoset: int) -> Seq<f64>;
+
+pub open spec fn csum(ch: Chance, pc: real, p1: real, p2: real, k: int) -> int
+    decreases k
+{
+    if k <= 0 { 0 } else { csum(ch, pc, p1, p2, k - 1) + vf(outcomes_of(ch)[k - 1].1, pc * rv(outcomes_of(ch)[k - 1].0), p1, p2) }
+}
+pub open spec fn psum(pl: Player, pc: real, p1: real, p2: real, k: int) -> int
+    decreases k
+{
+    if k <= 0 { 0 } else {
+        psum(pl, pc, p1, p2, k - 1) + (match pl.num {
+            PlayerNum::One => vf(pl.actions@[k - 1], pc, p1 * rv(cur_strat(pl.num, pl.infoset as int)[k - 1]), p2),
+            PlayerNum::Two => vf(pl.actions@[k - 1], pc, p1, p2 * rv(cur_strat(pl.num, pl.infoset as int)[k - 1])),
+        })
+    }
+}
+#[verifier::external_body]
+pub proof fn ax_additive()
+    ensures
+        forall|ch: Chance, pc: real, p1: real, p2: real| #[trigger] vf(Node::Chance(ch), pc, p1, p2) == csum(ch, pc, p1, p2, outcomes_of(ch).len() as int),
+        forall|pl: Player, pc: real, p1: real, p2: real| #[trigger] vf(Node::Player(pl), pc, p1, p2) == psum(pl, pc, p1, p2, pl.actions@.len() as int),
+        forall|n: Node, pc: real, p1: real, p2: real| #[trigger] vf(n, pc, p1, p2) >= 0,
+{ }
+
+pub open spec fn ival(e: Item) -> int { vf(*e.0, rv(e.1), rv(e.2[0]), rv(e.2[1])) }
+pub open spec fn tsum(q: Seq<Item>) -> int
+    decreases q.len()
+{
+    if q.len() == 0 { 0 } else { tsum(q.drop_last()) + ival(q.last()) }
+}
+pub open spec fn all_terminal(q: Seq<Item>) -> bool { forall|i: int| 0 <= i < q.len() ==> (*(#[trigger] q[i]).0) is Terminal }
+
+// the tables the tree was built against: every decision node's infoset exists and its current strategy
+// has one entry per action (Game::from_root, C11); the outcomes a chance infoset hands out are
+// children of the node
+pub open spec fn wf(n: Node, infos: [Seq<MutexRegretInfoset>; 2]) -> bool
+    decreases n
+{
+    match n {
+        Node::Terminal(_) => true,
+        Node::Chance(ch) => (forall|i: int| 0 <= i < ch.outcomes@.len() ==> wf(#[trigger] ch.outcomes@[i], infos))
+            && (forall|k: int| 0 <= k < outcomes_of(ch).len() ==> ch.outcomes@.contains(#[trigger] outcomes_of(ch)[k].1)),
+        Node::Player(pl) => {
+            let tab = match pl.num { PlayerNum::One => infos[0], PlayerNum::Two => infos[1] };
+            pl.infoset < tab.len() && tab[pl.infoset as int].strat@ == cur_strat(pl.num, pl.infoset as int)
+            && cur_strat(pl.num, pl.infoset as int).len() == pl.actions@.len()
+            && forall|i: int| 0 <= i < pl.actions@.len() ==> wf(#[trigger] pl.actions@[i], infos)
+        }
+    }
+}
+pub open spec fn all_wf(q: Seq<Item>, infos: [Seq<MutexRegretInfoset>; 2]) -> bool { forall|i: int| 0 <= i < q.len() ==> wf(*(#[trigger] q[i]).0, infos) }
+pub open spec fn tabs(pi: [&mut [MutexRegretInfoset]; 2]) -> [Seq<MutexRegretInfoset>; 2] { [pi[0]@, pi[1]@] }
+
+pub proof fn lemma_tsum_push(q: Seq<Item>, e: Item)
+    ensures tsum(q.push(e)) == tsum(q) + ival(e)
+{ assert(q.push(e).drop_last() =~= q); }
+
+pub proof fn lemma_tsum_pop(q: Seq<Item>)
+    requires q.len() > 0
+    ensures tsum(q) == tsum(q.drop_last()) + ival(q.last())
+{ }
+
+// a list that grew by n entries whose values are given entry-wise
+pub proof fn lemma_tsum_ext(w0: Seq<Item>, w1: Seq<Item>, n: int, f: spec_fn(int) -> int, g: spec_fn(int) -> int)
+    requires
+        n >= 0, w1.len() == w0.len() + n, w1.take(w0.len() as int) == w0,
+        forall|k: int| 0 <= k < n ==> ival(#[trigger] w1[w0.len() + k]) == f(k),
+        g(0) == 0, forall|k: int| 0 < k <= n ==> #[trigger] g(k) == g(k - 1) + f(k - 1),
+    ensures tsum(w1) == tsum(w0) + g(n)
+    decreases n
+{
+    if n == 0 { assert(w1 =~= w0); }
+    else {
+        let w1p = w1.drop_last();
+        assert(w1p.take(w0.len() as int) =~= w0);
+        assert(forall|k: int| 0 <= k < n - 1 ==> (#[trigger] w1p[w0.len() + k]) == w1[w0.len() + k]);
+        lemma_tsum_ext(w0, w1p, n - 1, f, g);
+        assert(w1.last() == w1[w0.len() + (n - 1)]);
+    }
 }
 
-// ---- extracted from src/solve/vanilla.rs: fn thread_threshold ----
-pub fn thread_threshold__player_node<'a, 'b>(player: &'a Player, p_chance: f64, p_player: [f64; 2], mut player_infosets: [&'b mut [MutexRegretInfoset]; 2], work: &mut Vec<(&'a Node, f64, [f64; 2])>)
+pub proof fn lemma_tsum_nonneg(q: Seq<Item>)
+    ensures tsum(q) >= 0
+    decreases q.len()
+{ ax_additive(); if q.len() > 0 { lemma_tsum_nonneg(q.drop_last()); } }
+// partial sums of non-negative terms grow
+pub proof fn lemma_g_mono(f: spec_fn(int) -> int, g: spec_fn(int) -> int, n: int, a: int, b: int)
+    requires 0 <= a <= b <= n, forall|k: int| 0 <= k < n ==> #[trigger] f(k) >= 0,
+        forall|k: int| 0 < k <= n ==> #[trigger] g(k) == g(k - 1) + f(k - 1),
+    ensures g(a) <= g(b)
+    decreases b - a
+{ if a < b { lemma_g_mono(f, g, n, a, b - 1); } }
+pub open spec fn sel_bound(idx: Seq<int>) -> int { if idx.len() == 0 { 0 } else { idx.last() + 1 } }
+// a list that grew by the entries of a SELECTION of positions (strictly increasing), whose values are
+// given position-wise and are non-negative: it grew by at most the full sum
+pub proof fn lemma_tsum_sel(w0: Seq<Item>, w1: Seq<Item>, idx: Seq<int>, n: int, f: spec_fn(int) -> int, g: spec_fn(int) -> int)
     requires
-        player.infoset < (match player.num { PlayerNum::One => player_infosets[0]@, PlayerNum::Two => player_infosets[1]@ }).len(),
-        (match player.num { PlayerNum::One => player_infosets[0]@, PlayerNum::Two => player_infosets[1]@ })[player.infoset as int].strat@.len() == player.actions@.len(),
+        n >= 0, sel_ok(idx, n), w1.len() == w0.len() + idx.len(), w1.take(w0.len() as int) == w0,
+        forall|j: int| 0 <= j < idx.len() ==> ival(#[trigger] w1[w0.len() + j]) == f(idx[j]),
+        forall|k: int| 0 <= k < n ==> #[trigger] f(k) >= 0,
+        g(0) == 0, forall|k: int| 0 < k <= n ==> #[trigger] g(k) == g(k - 1) + f(k - 1),
+    ensures tsum(w1) <= tsum(w0) + g(sel_bound(idx)), 0 <= sel_bound(idx) <= n, tsum(w1) <= tsum(w0) + g(n),
+    decreases idx.len()
+{
+    if idx.len() == 0 { assert(w1 =~= w0); lemma_g_mono(f, g, n, 0, n); }
+    else {
+        let w1p = w1.drop_last();
+        let ip = idx.drop_last();
+        let m = idx.len() - 1;
+        assert(w1p.take(w0.len() as int) =~= w0);
+        assert(forall|j: int| 0 <= j < ip.len() ==> (#[trigger] w1p[w0.len() + j]) == w1[w0.len() + j]);
+        assert(forall|j: int| 0 <= j < ip.len() ==> #[trigger] ip[j] == idx[j]);
+        lemma_tsum_sel(w0, w1p, ip, n, f, g);
+        assert(w1.last() == w1[w0.len() + m]);
+        let last = idx[m];
+        assert(sel_bound(ip) <= last) by { if ip.len() > 0 { assert(ip.last() == idx[m - 1]); assert(idx[m - 1] < idx[m]); } }
+        lemma_g_mono(f, g, n, sel_bound(ip), last);
+        assert(g(last + 1) == g(last) + f(last));
+        lemma_g_mono(f, g, n, last + 1, n);
+    }
+}
+
+// ---- the two expanding arms, by the contracts proved for their real text in c06_threshold_player_step
+#[verifier::external_body]
+pub fn __chance_arm<'a>(chance_infosets: &ChanceTables, chance: &'a Chance, p_chance: f64, p_player: [f64; 2], work: &mut Vec<Item<'a>>)
     ensures
-        // every entry added to the frontier belongs to ONE action of this node, no action twice, in order:
-        // the child, the unchanged chance reach, and the reach vector of ITS path -- only the acting
-        // player's entry multiplied by this action's probability. (Actions may be left out: whatever is
-        // not in the frontier is traversed by the pass from the root; the code as it is adds all of them.)
+        final(work)@.len() == old(work)@.len() + outcomes_of(*chance).len(),
+        final(work)@.take(old(work)@.len() as int) == old(work)@,
+        forall|k: int| 0 <= k < outcomes_of(*chance).len() ==> *(#[trigger] final(work)@[old(work)@.len() + k]).0 == outcomes_of(*chance)[k].1
+            && final(work)@[old(work)@.len() + k].2 == p_player
+            && rv(final(work)@[old(work)@.len() + k].1) == rv(p_chance) * rv(outcomes_of(*chance)[k].0),
+{ unimplemented!() }
+#[verifier::external_body]
+pub fn __player_arm<'a, 'b>(player: &'a Player, p_chance: f64, p_player: [f64; 2], player_infosets: &mut [&'b mut [MutexRegretInfoset]; 2], work: &mut Vec<Item<'a>>)
+    requires
+        player.infoset < (match player.num { PlayerNum::One => old(player_infosets)[0]@, PlayerNum::Two => old(player_infosets)[1]@ }).len(),
+        (match player.num { PlayerNum::One => old(player_infosets)[0]@, PlayerNum::Two => old(player_infosets)[1]@ })[player.infoset as int].strat@.len() == player.actions@.len(),
+    ensures
+        tabs(*final(player_infosets)) == tabs(*old(player_infosets)),
         exists|idx: Seq<int>| #[trigger] sel_ok(idx, player.actions@.len() as int)
-            && added_ok(old(work)@, final(work)@, idx, player, (match player.num { PlayerNum::One => player_infosets[0]@, PlayerNum::Two => player_infosets[1]@ })[player.infoset as int].strat@, p_chance, p_player), // @ob C06.V.thread_threshold.frontier_reach
+            && added_ok(old(work)@, final(work)@, idx, player, (match player.num { PlayerNum::One => old(player_infosets)[0]@, PlayerNum::Two => old(player_infosets)[1]@ })[player.infoset as int].strat@, p_chance, p_player),
+{ unimplemented!() }
+// documented allocation limit of Vec (never more than isize::MAX bytes; an Item is 32 bytes)
+#[verifier::external_body]
+pub proof fn ax_vec_len<'a>(v: &Vec<Item<'a>>) ensures v@.len() * 32 <= isize::MAX { }
+
+// ---- extracted from src/solve/vanilla.rs: fn thread_threshold ----
+#[verifier::exec_allows_no_decreases_clause]
+pub fn thread_threshold<'a>(
+    root: &'a Node,
+    chance_infosets: &ChanceTables,
+    mut player_infosets: [&mut [MutexRegretInfoset]; 2],
+    target: NonZeroUsize,
+    queue: &mut Vec<(&'a Node, f64, [f64; 2])>,
+    work: &mut Vec<(&'a Node, f64, [f64; 2])>,
+) 
+    requires
+        old(queue)@.len() == 0, old(work)@.len() == 0,
+        wf(*root, tabs(player_infosets)),
+    ensures
+        // what is handed to the workers (queue; work is discarded by the caller) are tasks of the tree the
+        // sequential traversal visits, with the reach values of that traversal, and NO part of the tree is
+        // in them twice (no entry twice, none below another): every non-negative additive functional of
+        // the traversal totals over the frontier to at most its value at the root. (Less is harmless:
+        // what is not in the frontier is traversed by the pass from the root.)
+        tsum(final(queue)@) + tsum(final(work)@) <= vf(*root, 1real, 1real, 1real), // @ob C06.V.thread_threshold.frontier_is_a_cut
 {
 broadcast use fl; broadcast use ideal;
-proof { ax_obeys(); ax_rv_lits(); }
-let ghost w0 = work@;
-let ghost st = (match player.num { PlayerNum::One => player_infosets[0]@, PlayerNum::Two => player_infosets[1]@ })[player.infoset as int].strat@;
-let ghost acts = player.actions@;
-let ghost mut idx: Seq<int> = Seq::empty();
+proof { ax_obeys(); ax_rv_lits(); ax_additive(); }
+let ghost infos = tabs(player_infosets);
 
-                let probs = &player.num.ind_mut(&mut player_infosets)[player.infoset].strat;
-                proof { assert(work@.take(w0.len() as int) =~= w0); }
-for (prob, next) in it: probs.iter().zip(player.actions.iter()) 
+    queue.push((root, 1.0, [1.0; 2]));
+    proof {
+    let e0 = queue@.last();
+    assert(queue@ =~= Seq::<Item>::empty().push(e0));
+    lemma_tsum_push(Seq::<Item>::empty(), e0);
+    assert(e0.0 == root && rv(e0.1) == 1real && rv(e0.2[0]) == 1real && rv(e0.2[1]) == 1real);
+    assert(tsum(Seq::<Item>::empty()) == 0);
+    assert(tsum(work@) == 0);
+    ax_vec_len(queue); ax_vec_len(work);
+}
+while !(queue.is_empty() && work.is_empty()) && queue.len() + work.len() < target.get() 
 invariant
-    probs@ == st, st.len() == acts.len(), acts == player.actions@,
-    0 <= it.index@ <= acts.len(),
-    sel_ok(idx, it.index@ as int),
-    added_ok(w0, work@, idx, player, st, p_chance, p_player),
+    infos == tabs(player_infosets),
+    all_wf(queue@, infos), all_wf(work@, infos),
+    queue@.len() * 32 <= isize::MAX, work@.len() * 32 <= isize::MAX,
+    tsum(queue@) + tsum(work@) <= vf(*root, 1real, 1real, 1real), // @ob C06.V.thread_threshold.frontier_is_a_cut
 {
 broadcast use fl; broadcast use ideal;
-proof { ax_obeys(); ax_rv_lits(); }
-let ghost k = it.index@ as int;
-let ghost wb = work@;
+proof { ax_obeys(); ax_rv_lits(); ax_additive(); }
+let ghost q0 = queue@;
+let ghost w0 = work@;
 
-                    let mut next_probs = p_player;
-                    *player.num.ind_mut(&mut next_probs) = *player.num.ind_mut(&mut next_probs) * ( prob);
-                    work.push((next, p_chance, next_probs));
-                
+        match queue.pop() {
+            Some((Node::Terminal(_), _, _)) => {}
+            Some((Node::Chance(chance), p_chance, p_player)) => { __chance_arm(chance_infosets, chance, p_chance, p_player, work); }
+            Some((Node::Player(player), p_chance, p_player)) => { __player_arm(player, p_chance, p_player, &mut player_infosets, work); }
+            None => {
+                mem::swap(queue, work);
+            }
+        }
+    
 proof {
-    // the annotation follows what the body did: an entry was added for action k, or none
-    if work@.len() == wb.len() + 1 {
-        let i0 = idx;
-        idx = i0.push(k);
-        assert(work@.take(w0.len() as int) =~= w0);
-        assert(forall|j: int| 0 <= j < i0.len() ==> (#[trigger] work@[w0.len() + j]) == wb[w0.len() + j]);
-        assert(forall|j: int| 0 <= j < i0.len() ==> idx[j] == i0[j]);
-        assert(work@[(w0.len() + i0.len()) as int] == work@.last());
+    ax_vec_len(queue); ax_vec_len(work);
+    lemma_tsum_nonneg(w0); lemma_tsum_nonneg(q0); lemma_tsum_nonneg(work@); lemma_tsum_nonneg(queue@);
+    if q0.len() > 0 {
+        let e = q0.last();
+        lemma_tsum_pop(q0);
+        assert(queue@ =~= q0.drop_last());
+        assert(wf(*e.0, infos));
+        match *e.0 {
+            Node::Terminal(_) => { }
+            Node::Chance(ch) => {
+                let n = outcomes_of(ch).len() as int;
+                let pc = rv(e.1); let p1 = rv(e.2[0]); let p2 = rv(e.2[1]);
+                assert forall|k: int| 0 <= k < n implies wf(*(#[trigger] work@[w0.len() + k]).0, infos) by {
+                    let nd = outcomes_of(ch)[k].1;
+                    assert(ch.outcomes@.contains(nd));
+                    let j = choose|j: int| 0 <= j < ch.outcomes@.len() && ch.outcomes@[j] == nd;
+                    assert(wf(ch.outcomes@[j], infos));
+                }
+                assert forall|i: int| 0 <= i < work@.len() implies wf(*(#[trigger] work@[i]).0, infos) by {
+                    if i < w0.len() { assert(work@[i] == work@.take(w0.len() as int)[i]); } else { assert(work@[i] == work@[w0.len() + (i - w0.len())]); }
+                }
+                lemma_tsum_ext(w0, work@, n,
+                    |k: int| vf(outcomes_of(ch)[k].1, pc * rv(outcomes_of(ch)[k].0), p1, p2),
+                    |k: int| csum(ch, pc, p1, p2, k));
+            }
+            Node::Player(pl) => {
+                let n = pl.actions@.len() as int;
+                let pc = rv(e.1); let p1 = rv(e.2[0]); let p2 = rv(e.2[1]);
+                let st = cur_strat(pl.num, pl.infoset as int);
+                let idx = choose|idx: Seq<int>| #[trigger] sel_ok(idx, n) && added_ok(w0, work@, idx, &pl, st, e.1, e.2);
+                assert forall|i: int| 0 <= i < work@.len() implies wf(*(#[trigger] work@[i]).0, infos) by {
+                    if i < w0.len() { assert(work@[i] == work@.take(w0.len() as int)[i]); } else { assert(work@[i] == work@[w0.len() + (i - w0.len())]); }
+                }
+                lemma_tsum_sel(w0, work@, idx, n,
+                    |k: int| match pl.num {
+                        PlayerNum::One => vf(pl.actions@[k], pc, p1 * rv(st[k]), p2),
+                        PlayerNum::Two => vf(pl.actions@[k], pc, p1, p2 * rv(st[k])),
+                    },
+                    |k: int| psum(pl, pc, p1, p2, k));
+            }
+        }
     } else {
-        assert(work@ == wb);
+        assert(queue@ == w0 && work@ == q0);
     }
 }
 }
-            }
-
-// ---- extracted from src/solve/vanilla.rs: fn thread_threshold ----
-pub fn thread_threshold__chance_outcome<'a>(prob: &f64, node: &'a Node, p_chance: f64, p_player: [f64; 2]) -> (out: (&'a Node, f64, [f64; 2]))
-    ensures
-        // a chance outcome enters the frontier with the chance reach of ITS path (parent reach x outcome
-        // probability) and unchanged player reaches
-        out.0 == node && out.2 == p_player, // @ob C06.V.thread_threshold.frontier_reach_chance
-        rv(out.1) == rv(p_chance) * rv(*prob), // @ob C06.V.thread_threshold.frontier_reach_chance
-{
-broadcast use fl; broadcast use ideal;
-proof { ax_obeys(); ax_rv_lits(); }
-(node, p_chance * prob, p_player)
 }
 
 
